@@ -61,10 +61,23 @@ def re_alt(x, fermion):
     def outer(e):
         return -sg * math.sqrt(e * e + s * s) * e * math.log1p(sg * math.exp(-e)) if e > 0 else 0.0
 
-    pts = [math.pi] if (fermion and s > math.pi) else None
+    pts = [k * math.pi for k in range(1, 40) if k * math.pi < s] or None      # log singularities at w = odd (J_f) / even (J_b) multiples of pi
     a = quad(inner, 0.0, s, epsabs=1e-12, epsrel=1e-12, limit=400, points=pts)[0]
     b = quad(outer, 0.0, np.inf, epsabs=1e-12, epsrel=1e-12, limit=400)[0]
     return a + b
+
+
+def im_alt(x, fermion):
+    """Im J(x) for any x < 0 by quadrature of the principal phase of 1 -/+ exp(-i w) in the energy variable, break points
+    declared at every multiple of pi (for -4 pi^2 < x < 0 it reproduces imag_closed to 1e-13)"""
+    import cmath
+    from scipy.integrate import quad
+
+    s = math.sqrt(-x)
+    sg = 1.0 if fermion else -1.0
+    f = lambda w: -sg * math.sqrt(max(s * s - w * w, 0.0)) * w * cmath.phase(1.0 + sg * cmath.exp(-1j * w)) if w > 0 else 0.0
+    pts = [k * math.pi for k in range(1, 40) if k * math.pi < s] or None
+    return quad(f, 0.0, s, epsabs=1e-12, epsrel=1e-12, limit=400, points=pts)[0]
 
 
 def kinky(x, fermion):
@@ -186,10 +199,12 @@ def measure(tier, seed):
         evs.append({"e": "Obs", "kind": "integral", "J": name, "what": "decay_large", "n": int(len(xs)),
                     "d": quant.digits(np.max(np.abs(dr - ex))) if inside else -1})
         # beyond both ends of the table the direct integral stays finite and continuous with the end value
-        lo = direct_rows((name, [-20.5, -25.0, -40.0]))
+        xlo = [-20.5, -25.0, -38.0, -41.0, -45.0, -90.0, -100.0, -170.0]      # across x = -4 pi^2 (J_b) and -9 pi^2 (J_f), where the phase wraps again
+        lo = direct_rows((name, xlo))
         hi = direct_rows((name, [1000.5, 1500.0, 5000.0]))
-        lo_ok = np.all(np.isfinite(lo)) and quant.digits(abs(lo[0, 1] - imag_closed(-20.5, fer)) / 10.0) >= 6 and quant.digits(abs(lo[0, 0] - re_alt(-20.5, fer)) / 10.0) >= 6
-        evs.append({"e": "Obs", "kind": "integral", "J": name, "what": "beyond_low", "n": 3,
+        lo_ok = np.all(np.isfinite(lo)) and all(quant.digits(abs(lo[i, 1] - im_alt(x, fer)) / max(1.0, abs(lo[i, 1]))) >= 6
+                                                and quant.digits(abs(lo[i, 0] - re_alt(x, fer)) / max(1.0, abs(lo[i, 0]))) >= 6 for i, x in enumerate(xlo))
+        evs.append({"e": "Obs", "kind": "integral", "J": name, "what": "beyond_low", "n": len(xlo),
                     "d": quant.digits(abs(lo[0, 0] - V[0, 0]) / abs(V[0, 0])) if lo_ok else -1})
         evs.append({"e": "Obs", "kind": "integral", "J": name, "what": "beyond_high", "n": 3,
                     "d": 16 if (np.all(np.isfinite(hi)) and np.all(np.abs(hi[:, 0]) <= abs(V[-1, 0]) * 1.001 + 1e-300)) else -1})
